@@ -2,7 +2,7 @@
 from .val import clone, kind
 from . import gen
 
-POOL = [0, 1, 2, 7, 1.5, 0.1, 'x', 'y', '', 'zz', '8080', 'true', True, False]
+POOL = [0, 1, 2, 7, 1.5, 0.1, 'x', 'y', '', 'zz', '8080', 'true', True, False, 2**53, 2**53 + 1, 2**53 + 2, 2**63 - 1, 2**63 - 2, 1234567890123456789, 1234567890123456790]
 
 
 def base_tree(rng):
@@ -14,6 +14,10 @@ def base_tree(rng):
         t[rng.choice(['n', 'o'])] = [rng.choice(POOL) for _ in range(rng.randint(0, 4))]
     if rng.random() < 0.2:
         t[rng.choice(['p', 'q'])] = rng.choice([{}, []])
+    if rng.random() < 0.05:
+        # a long list with repeated entries (more than 64)
+        base = ['e%d' % (j % rng.choice([7, 30, 90])) for j in range(rng.randint(66, 100))]
+        t[rng.choice(['r', 's'])] = base
     return t
 
 
